@@ -525,6 +525,7 @@ impl ValidGrammar {
         let (mut user_specs, fallback_specs) = grammar.get_specializations(shell)?;
         let builtin_specs = make_builtin_specializations(shell);
 
+        let defined_nonterminals: UstrSet = nonterminal_definitions.keys().copied().collect();
         let mut unused_nonterminals: UstrMap<HumanSpan> = nonterminal_definitions
             .iter()
             .map(|(nonterm, defn)| (*nonterm, defn.lhs_span))
@@ -537,6 +538,7 @@ impl ValidGrammar {
                 &mut user_specs,
                 &builtin_specs,
                 &fallback_specs,
+                &defined_nonterminals,
                 &mut unused_nonterminals,
             );
         }
@@ -548,6 +550,7 @@ impl ValidGrammar {
             &mut user_specs,
             &builtin_specs,
             &fallback_specs,
+            &defined_nonterminals,
             &mut unused_nonterminals,
         );
 
@@ -771,6 +774,7 @@ fn specialize_nonterminals(
     user_specs: &mut UstrMap<UserSpec>,
     builtin_specs: &UstrMap<BuiltinSpec>,
     fallback_specs: &UstrMap<(Ustr, HumanSpan)>,
+    defined_nonterminals: &UstrSet,
     unused_nonterminals: &mut UstrMap<HumanSpan>,
 ) -> ExprId {
     match expr_arena[expr_id].clone() {
@@ -785,6 +789,10 @@ fn specialize_nonterminals(
             let (cmd, zsh_compadd) = if let Some(ref mut spec) = user_specs.get_mut(&nonterm) {
                 spec.used = true;
                 (spec.cmd, true)
+            } else if defined_nonterminals.contains(&nonterm) {
+                // A plain definition overrides the predefined meaning of <PATH>/<DIRECTORY>; it
+                // gets expanded later on.
+                return expr_id;
             } else if let Some(BuiltinSpec { cmd }) = builtin_specs.get(&nonterm) {
                 (*cmd, true)
             } else if let Some((cmd, _)) = fallback_specs.get(&nonterm) {
@@ -834,6 +842,7 @@ fn specialize_nonterminals(
                 user_specs,
                 builtin_specs,
                 fallback_specs,
+                defined_nonterminals,
                 unused_nonterminals,
             );
             if child == new_child {
@@ -860,6 +869,7 @@ fn specialize_nonterminals(
                         user_specs,
                         builtin_specs,
                         fallback_specs,
+                        defined_nonterminals,
                         unused_nonterminals,
                     )
                 })
@@ -888,6 +898,7 @@ fn specialize_nonterminals(
                         user_specs,
                         builtin_specs,
                         fallback_specs,
+                        defined_nonterminals,
                         unused_nonterminals,
                     )
                 })
@@ -913,6 +924,7 @@ fn specialize_nonterminals(
                 user_specs,
                 builtin_specs,
                 fallback_specs,
+                defined_nonterminals,
                 unused_nonterminals,
             );
             if child == new_child {
@@ -935,6 +947,7 @@ fn specialize_nonterminals(
                 user_specs,
                 builtin_specs,
                 fallback_specs,
+                defined_nonterminals,
                 unused_nonterminals,
             );
             if child == new_child {
@@ -961,6 +974,7 @@ fn specialize_nonterminals(
                         user_specs,
                         builtin_specs,
                         fallback_specs,
+                        defined_nonterminals,
                         unused_nonterminals,
                     )
                 })
